@@ -101,7 +101,6 @@ struct Input {
   bool convert = false;        // also run ConvertTo in both directions (fresh parser + static generator inside the library)
   bool extract = false;        // steal the tree after a successful parse (Parser / SchemaAuditor), like Schema does
   bool evalOK = false;         // cheap enough for the interpreter (decided during the fresh pass, see decideEval)
-  bool foreignDefect = false;  // accepted text of the class described at enumDomainRedeclares (interpreter skipped)
   EP tree;                     // the tree the text was printed from
   bool faithful = true;        // false when the text was corrupted after printing
   SchemaMode smode = EXPR_ONLY;
@@ -181,20 +180,6 @@ void genLiteralType(Ctx& c, int depth, std::string& text, Ty& ty, bool allowTupl
 // Cost filter for the interpreter (not an oracle).  An input that the type checker rejects costs nothing to "evaluate".  An accepted
 // input is evaluated only if the reference evaluator of model/rstyped.hpp gets through its tree within a small step budget: the
 // library needs about 0.1 ms per element operation under the sanitizers, and a symmetric difference of two ℬ(X1×X1) takes 12 s.
-// Not a C18 matter (a FRESH interpreter faults): for "∃x,s∈ℬ(D{x∈X1|..}) .." the normaliser copies the domain into a nested quantifier,
-// and evaluating the copy overwrites the slot of the outer x (one slot per name), so the body reads an element where it expects a set
-// (null dereference in StructuredData::B).  The checker accepts the text with a localDoubleDeclare warning.  Such inputs are kept in
-// the sequence but not given to the interpreter; reported to the owner of C01/C02.
-void localNames(const Expr& e, bool ascii, std::set<std::string>& out) { if (e.id == TID::ID_LOCAL) out.insert(ascii ? translit(e.name) : e.name); for (auto& k : e.kids) localNames(*k, ascii, out); }
-bool enumDomainRedeclares(const Expr& e, bool ascii) {
-  if ((e.id == TID::FORALL || e.id == TID::EXISTS) && e.kids.size() == 3 && e.kids[0]->id == TID::NT_ENUM_DECL) {
-    std::set<std::string> decl, dom; localNames(*e.kids[0], ascii, decl); localNames(*e.kids[1], ascii, dom);
-    for (auto& n : decl) if (dom.count(n)) return true;
-  }
-  for (auto& k : e.kids) if (enumDomainRedeclares(*k, ascii)) return true;
-  return false;
-}
-
 bool modelCheap(const Gamma& G, const EP& tree) {
   // shapes the interpreter refuses without evaluating anything (function definitions, structure / function declarations)
   if (tree->id == TID::NT_FUNC_DEFINITION || tree->id == TID::PUNC_STRUCT) return true;
@@ -312,12 +297,7 @@ Rec observe(Objs& o, sem::SchemaAuditor& schemaForCst, Input& in, Env& env, cons
     r.add("auditor.errors+value", errList(o.auditor.Errors()));
   }
   // ---- Interpreter
-  if (decideWith != nullptr) {
-    bool foreign = in.tree && enumDomainRedeclares(*in.tree, in.ascii);
-    for (auto& f : decideWith->funcs) foreign = foreign || (in.text.find(f.name) != std::string::npos && enumDomainRedeclares(*f.body, false));  // bodies are inlined into calls
-    in.foreignDefect = r.typeOK && foreign;
-    in.evalOK = in.text.size() <= 600 && !in.foreignDefect && (!r.typeOK || (in.faithful && modelCheap(*decideWith, in.tree)));
-  }
+  if (decideWith != nullptr) in.evalOK = in.text.size() <= 600 && (!r.typeOK || (in.faithful && modelCheap(*decideWith, in.tree)));
   if (in.evalOK) {
     r.evaluated = true;
     const auto res = o.interp.Evaluate(text, in.hint);
@@ -543,8 +523,7 @@ Verdict historyProp(Ctx& c) {
     }
   }
   for (size_t i = 0; i < rf.size(); ++i) {
-    if (ins[i].foreignDefect) c.count("interpreter-skipped-enum-domain-redeclare");
-    else if (!ins[i].evalOK) c.count("interpreter-skipped-cost");
+    if (!ins[i].evalOK) c.count("interpreter-skipped-cost");
     if (ins[i].ctxVariant) c.label("ctx:without-D9");
     if (!ins[i].litText.empty()) c.label("obj:literal_t");
   }
